@@ -345,7 +345,7 @@ package schema
 //@   loop 1 invariant 0 <= i && len(result) == listLen(data) && (forall j int :: 0 <= j && j < i ==> serOK(l.ItemsValue, listItem(data, j)) && result[j] == serV(l.ItemsValue, listItem(data, j)))
 
 //@ spec mapKey(data any, j int) any = rv_iface(rv_key(rv_of(data), j))
-//@ spec mapVal(data any, j int) any = rv_iface(rv_mapindex(rv_of(data), rv_key(rv_of(data), j)))
+//@ spec mapVal(data any, j int) any = rv_iface(rv_mapval(rv_of(data), rv_iface(rv_key(rv_of(data), j))))
 
 //@ func MapSchema.Validate(m, data) -> err
 //@   ensures (err == nil) == (kindOf(data) == KindMap && sizeOK(m.MinValue, m.MaxValue, listLen(data)) && (forall j int :: 0 <= j && j < listLen(data) ==> validOK(m.KeysValue, mapKey(data, j)) && validOK(m.ValuesValue, mapVal(data, j))))
@@ -359,3 +359,73 @@ package schema
 //@   ensures err == nil ==> kindOf(data) == KindMap && sizeOK(m.MinValue, m.MaxValue, listLen(data)) && (forall j int :: 0 <= j && j < listLen(data) ==> validOK(m.KeysValue, mapKey(data, j)) && validOK(m.ValuesValue, mapVal(data, j)) && serOK(m.KeysValue, mapKey(data, j)) && serOK(m.ValuesValue, mapVal(data, j)))
 //@   ensures err == nil ==> typeOf(res) == type(map[any]any) && (forall j int :: 0 <= j && j < listLen(data) ==> serV(m.KeysValue, mapKey(data, j)) in res.(map[any]any))
 //@   loop 1 invariant forall j int :: 0 <= j && j <= idx ==> serOK(m.KeysValue, mapKey(data, j)) && serOK(m.ValuesValue, mapVal(data, j)) && serV(m.KeysValue, mapKey(data, j)) in result
+
+// ---------------------------------------------------------------------------------------------
+// C03: presence rules, defaults, disabled properties, one-of dispatch
+// ---------------------------------------------------------------------------------------------
+
+//@ spec noneSet(names []string, rawData map[string]any) bool = forall j int :: 0 <= j && j < len(names) ==> !(names[j] in rawData)
+//@ spec someSet(names []string, rawData map[string]any) bool = exists j int :: 0 <= j && j < len(names) && names[j] in rawData
+//@ ospec unsetOK(p *PropertySchema, rawData map[string]any) bool = !p.RequiredValue && noneSet(p.RequiredIfValue, rawData) && (len(p.RequiredIfNotValue) == 0 || someSet(p.RequiredIfNotValue, rawData))
+//@ ospec setOK(p *PropertySchema, rawData map[string]any) bool = noneSet(p.ConflictsValue, rawData)
+//@ spec ruleOK(p *PropertySchema, id string, rawData map[string]any) bool = (id in rawData) ? setOK(p, rawData) : unsetOK(p, rawData)
+
+//@ func ObjectSchema.validatePropertyInterdependenciesIfUnset(o, rawData, propertyID, property) -> err
+//@   requires property != nil
+//@   ensures (err == nil) == unsetOK(property, rawData)
+//@   ensures err != nil ==> isCE(err) && fresh(err)
+//@   loop 1 invariant forall j int :: 0 <= j && j <= idx ==> !(property.RequiredIfValue[j] in rawData)
+//@   loop 2 invariant forall j int :: 0 <= j && j <= idx ==> !(property.RequiredIfNotValue[j] in rawData)
+//@   assigns nothing
+
+//@ func ObjectSchema.validatePropertyInterdependenciesIfSet(o, rawData, propertyID, property) -> err
+//@   requires property != nil
+//@   ensures (err == nil) == setOK(property, rawData)
+//@   ensures err != nil ==> isCE(err) && fresh(err)
+//@   loop 1 invariant forall j int :: 0 <= j && j <= idx ==> !(property.ConflictsValue[j] in rawData)
+//@   assigns nothing
+
+//@ func ObjectSchema.validateFieldInterdependencies(o, rawData) -> err
+//@   ensures err == nil ==> (forall k string :: k in o.PropertiesValue ==> ruleOK(o.PropertiesValue[k], k, rawData))
+//@   ensures err != nil ==> (exists k string :: k in o.PropertiesValue && !ruleOK(o.PropertiesValue[k], k, rawData))
+//@   loop 1 invariant forall k string :: k in visited ==> ruleOK(o.PropertiesValue[k], k, rawData)
+//@   assigns nothing
+
+//@ func PropertySchema.Unserialize(p, data) -> res, err
+//@   ensures p.Disabled ==> err != nil
+//@   ensures !p.Disabled ==> ((err == nil) == unserOK(p.TypeValue, data)) && (err == nil ==> res == unserV(p.TypeValue, data))
+
+//@ abstract punserOK(p *PropertySchema, d any) bool
+//@ abstract punserV(p *PropertySchema, d any) any
+//@ func ObjectSchema.GetDefaults(o) -> res
+//@   ensures old(o.defaultValues) != nil ==> res == old(o.defaultValues) && o.defaultValues == old(o.defaultValues)
+//@   ensures res != nil
+//@   assigns o.defaultValues
+
+//@ func ObjectSchema.invalidKeyError(o, value) -> err
+//@   ensures err != nil && isCE(err) && fresh(err)
+//@   assigns nothing
+
+//@ func ObjectSchema.applySubObjectDefaultValues(o, propertyID, property, rawData)
+//@   requires o.fieldCache != nil
+
+//@ spec suppliedV(v RV, k string) any = rv_iface(rv_mapval(v, any(k)))
+//@ spec supplied(v RV, k string) bool = rv_valid(rv_mapval(v, any(k)))
+
+//@ func PropertySchema.Unserialize(p, data) -> res, err
+//@   names (err == nil) == punserOK(p, data)
+//@   names err == nil ==> res == punserV(p, data)
+
+//@ spec skey(v RV, j int) string = rv_iface(rv_key(v, j)).(string)
+//@ ospec rawForm(v RV, defs map[string]any, rawData map[string]any, k string) bool = (supplied(v, k) ==> rawData[k] == suppliedV(v, k)) && (!supplied(v, k) ==> k in defs && rawData[k] == defs[k])
+//@ ospec finalForm(o *ObjectSchema, v RV, defs map[string]any, rawData map[string]any, k string) bool = (supplied(v, k) ==> punserOK(o.PropertiesValue[k], suppliedV(v, k)) && rawData[k] == punserV(o.PropertiesValue[k], suppliedV(v, k))) && (!supplied(v, k) ==> k in defs && punserOK(o.PropertiesValue[k], defs[k]) && rawData[k] == punserV(o.PropertiesValue[k], defs[k]))
+
+//@ func ObjectSchema.convertData(o, v) -> rawData, err
+//@   requires rv_valid(v) && kind(rv_type(v)) == KindMap
+//@   requires o.fieldCache == nil && o.defaultValues != nil
+//@   ensures err == nil ==> (forall j int :: 0 <= j && j < rv_len(v) ==> typeOf(rv_iface(rv_key(v, j))) == type(string) && skey(v, j) in o.PropertiesValue && skey(v, j) in rawData)
+//@   ensures err == nil ==> (forall k string :: k in rawData ==> k in o.PropertiesValue && finalForm(o, v, old(o.defaultValues), rawData, k))
+//@   ensures err == nil ==> (forall k string :: k in o.PropertiesValue && !supplied(v, k) && k in old(o.defaultValues) ==> k in rawData)
+//@   loop 1 invariant rawData != nil && fresh(rawData) && (forall j int :: 0 <= j && j <= idx ==> typeOf(rv_iface(rv_key(v, j))) == type(string) && skey(v, j) in o.PropertiesValue && skey(v, j) in rawData) && (forall k string :: k in rawData ==> k in o.PropertiesValue && supplied(v, k) && rawData[k] == suppliedV(v, k))
+//@   loop 2 invariant rawData != nil && fresh(rawData) && o.PropertiesValue == old(o.PropertiesValue) && o.fieldCache == nil && o.defaultValues == old(o.defaultValues) && (forall j int :: 0 <= j && j < rv_len(v) ==> typeOf(rv_iface(rv_key(v, j))) == type(string) && skey(v, j) in o.PropertiesValue && skey(v, j) in rawData) && (forall k string :: k in rawData ==> k in o.PropertiesValue && rawForm(v, old(o.defaultValues), rawData, k)) && (forall k string :: k in visited && !supplied(v, k) && k in old(o.defaultValues) ==> k in rawData)
+//@   loop 3 invariant rawData != nil && fresh(rawData) && o.PropertiesValue == old(o.PropertiesValue) && (forall j int :: 0 <= j && j < rv_len(v) ==> typeOf(rv_iface(rv_key(v, j))) == type(string) && skey(v, j) in o.PropertiesValue && skey(v, j) in rawData) && (forall k string :: k in rawData ==> k in o.PropertiesValue && (k in visited ? finalForm(o, v, old(o.defaultValues), rawData, k) : rawForm(v, old(o.defaultValues), rawData, k))) && (forall k string :: k in o.PropertiesValue && !supplied(v, k) && k in old(o.defaultValues) ==> k in rawData)
